@@ -16,9 +16,28 @@ yorel::yomm2::generator& process_generator() {
     return gen;
 }
 
+// ... and one output stream: a program that writes the tables and then the
+// offsets into one file hands both calls the same std::ostream, in whatever
+// formatting state the previous call left it
+template<class P>
+std::ostringstream& process_stream() {
+    static std::ostringstream os;
+    return os;
+}
+
+// what `write` appends to the stream
+template<class F>
+std::string appended(std::ostringstream& os, F write) {
+    const std::size_t before = os.str().size();
+    write(os);
+    return os.str().substr(before);
+}
+
 template<class P, std::size_t... S>
 std::string offsets_of(int slot, bool fresh, std::index_sequence<S...>) {
-    std::ostringstream os;
+    std::ostringstream local_os;
+    std::ostringstream& os = fresh ? local_os : process_stream<P>();
+    const std::size_t before = os.str().size();
     yorel::yomm2::generator local;
     yorel::yomm2::generator& gen = fresh ? local : process_generator<P>();
     if (slot < 0) {
@@ -31,7 +50,7 @@ std::string offsets_of(int slot, bool fresh, std::index_sequence<S...>) {
             }...};
         tbl[slot](gen, os);
     }
-    return os.str();
+    return os.str().substr(before);
 }
 } // namespace
 
@@ -43,23 +62,26 @@ std::string glue_offsets(int slot, bool fresh) {
 template<class P>
 void glue_new_generator() {
     process_generator<P>() = yorel::yomm2::generator();
+    process_stream<P>() = std::ostringstream();
 }
 
 template<class P>
 std::string glue_offsets_policy(bool fresh) {
-    std::ostringstream os;
+    std::ostringstream local_os;
+    std::ostringstream& os = fresh ? local_os : process_stream<P>();
+    const std::size_t before = os.str().size();
     yorel::yomm2::generator local;
     yorel::yomm2::generator& gen = fresh ? local : process_generator<P>();
     gen.write_static_offsets<P>(os);
-    return os.str();
+    return os.str().substr(before);
 }
 
 template<class P>
 std::string glue_encode(
     const yorel::yomm2::detail::compiler<P>& compiler, const char* name) {
-    std::ostringstream os;
-    yorel::yomm2::generator::encode_dispatch_data(compiler, name, os);
-    return os.str();
+    return appended(process_stream<P>(), [&](std::ostream& os) {
+        yorel::yomm2::generator::encode_dispatch_data(compiler, name, os);
+    });
 }
 
 #define YS_GLUE(P)                                                            \
